@@ -2149,3 +2149,66 @@ func valueParent(v ssa.Value) *ssa.Function {
 	}
 	return nil
 }
+
+// pcTableLookup: v is table[index] of a package-level map literal the module
+// only reads — either the bool element of a map whose values are all true, or
+// the presence flag of `_, ok := table[index]`.  The constant keys are returned.
+func pcTableLookup(w *World, v ssa.Value) (keys []constant.Value, index ssa.Value, ok bool) {
+	var lk *ssa.Lookup
+	wantTrue := false
+	switch x := v.(type) {
+	case *ssa.Lookup:
+		if x.CommaOk {
+			return nil, nil, false
+		}
+		lk, wantTrue = x, true
+	case *ssa.Extract:
+		l, isL := x.Tuple.(*ssa.Lookup)
+		if !isL || !l.CommaOk || x.Index != 1 {
+			return nil, nil, false
+		}
+		lk = l
+	default:
+		return nil, nil, false
+	}
+	ld, isLd := lk.X.(*ssa.UnOp)
+	if !isLd || ld.Op != token.MUL {
+		return nil, nil, false
+	}
+	g, isG := ld.X.(*ssa.Global)
+	if !isG {
+		return nil, nil, false
+	}
+	tv, isV := g.Object().(*types.Var)
+	if !isV || !w.InRepoObj(tv) {
+		return nil, nil, false
+	}
+	if _, isMap := tv.Type().Underlying().(*types.Map); !isMap {
+		return nil, nil, false
+	}
+	init, ip := w.VarInit(tv)
+	cl, isCL := ast.Unparen(init).(*ast.CompositeLit)
+	if !isCL {
+		return nil, nil, false
+	}
+	for _, el := range cl.Elts {
+		kv, isKV := el.(*ast.KeyValueExpr)
+		if !isKV {
+			return nil, nil, false
+		}
+		k := ConstOf(ip, kv.Key)
+		if k == nil {
+			return nil, nil, false
+		}
+		if wantTrue {
+			if c := ConstOf(ip, kv.Value); c == nil || c.Kind() != constant.Bool || !constant.BoolVal(c) {
+				return nil, nil, false
+			}
+		}
+		keys = append(keys, k)
+	}
+	if !w.readOnlyTable(tv) {
+		return nil, nil, false
+	}
+	return keys, lk.Index, true
+}
